@@ -680,3 +680,38 @@ def _slice_origin(mir, copies, pl, depth=0):
     if rv["k"] == "cast" and rv["x"]["k"] in ("copy", "move"):
         return _slice_origin(mir, copies, rv["x"]["pl"], depth + 1)
     return None
+
+
+# ---- one base value per path ("the fraction that is tested is the fraction that is printed") ---------------------------------------
+def path_bases(p, is_source, ks):
+    """The distinct terms X on one path that (1) contain a source (is_source(subterm)) and (2) are used as `X / k`, `X % k` with k in ks,
+    as `X == 0` / `X != 0` in a condition, or as a formatting argument. `X / k` and `X % k` themselves are uses, not bases."""
+    from sym import walk_terms, const_of
+    bases = set()
+
+    def has_src(t):
+        return any(is_source(x) for x in walk_terms(t))
+
+    def is_use(t):
+        return t[0] == "bin" and t[1] in ("Div", "Rem") and const_of(t[3]) in ks
+
+    def strip(t):
+        # the `.0` of a checked arithmetic pair is the value itself
+        return t
+    terms = [c[1] for c in p.conds if c[0][0] == "switch"] + list(p.calls)
+    for t in terms:
+        for x in walk_terms(t):
+            if not isinstance(x, tuple) or not x:
+                continue
+            if is_use(x) and has_src(x[2]):
+                if not is_use(x[2]):
+                    bases.add(strip(x[2]))
+            elif x[0] == "bin" and x[1] in ("Eq", "Ne") and const_of(x[3]) == 0 and has_src(x[2]) and not is_use(x[2]):
+                bases.add(strip(x[2]))
+            elif x[0] == "call" and isinstance(x[1], str) and x[1].endswith("::new_display") and x[2]:
+                a = x[2][0]
+                while isinstance(a, tuple) and a and a[0] in ("ref", "deref"):
+                    a = a[1]
+                if has_src(a) and not is_use(a) and a[0] in ("bin", "field", "call", "cast"):
+                    bases.add(strip(a))
+    return bases
